@@ -93,7 +93,7 @@ def main():
     cfg = {'timeout_ms': 120000, 'unwind': 12, 'dec_as_term': True, 'chan_pool': 0}
     # the one-formula BMC jobs run in the thorough tier only (10+ CPU minutes per job since the keystore is weshnet's own
     # datastore keystore); the quick tier decides the same contract with the symbolic scheduler below
-    grid = [] if t == 'quick' else [(2, 1, 1), (2, 1, 0), (2, 2, 1), (3, 1, 1)]
+    grid = [] if t == 'quick' else [(2, 1, 1), (2, 1, 0)]
     jobs = [Job(P + 'VerifC09Concurrent', a, cfg=cfg, max_paths=100000) for a in grid]
     res = chk.run_jobs(jobs) if jobs else []
     chk.cleanup()
